@@ -58,6 +58,9 @@ type FarmOpts struct {
 	// Fork: where the genesis puts the fork (EVM switch, forced staking options): 0 = block 1 (the farm's default),
 	// 1 = height 1000 (never reached), 2 = disabled; without the fork there is no EVM: no contracts, no OLVM subject
 	Fork int `json:"fork,omitempty"`
+	// Restart: the subject node is stopped and started again on its data directory after the prefix (honoured by the
+	// checks that throw inputs at a warmed-up node: what the application keeps only in memory is gone)
+	Restart bool `json:"restart,omitempty"`
 }
 
 // FarmParams is the genesis configuration the farm script is written for.
